@@ -53,6 +53,8 @@ MUTANTS = [
   "                hunk.remove.content.push(line);\n                header.remove_count -= 1;\n\n                there_was_a_non_context_line = true;", ["C01.hunk_wf"], ["C11"]),
  ("parser", "src/libpatch/patch/unified/parser.rs", "        if count == 0 {\n            line as isize\n        } else {", "        if false {\n            line as isize\n        } else {", ["C01.start_lines"], ["C11"]),
  ("parser", "src/libpatch/patch/unified/parser.rs", "hunk.add.content.reserve(std::cmp::min(header.add_count, input.len()));", "hunk.add.content.reserve(header.add_count);", ["parse_hunk.body"], []),
+ # parse_hunks (totality): without the progress assignment the loop parses the same hunk for ever
+ ("parser", "src/libpatch/patch/unified/parser.rs", "                hunks.push(hunk);\n                input = input_;", "                hunks.push(hunk);", ["C11.parse_hunks"], []),
  # parse_c_string (totality): the byte after a backslash "is always there"
  ("parser", "src/libpatch/patch/unified/parser.rs", "                let c = match input.get(index) {", "                let c = match Some(&input[index]) {", ["parse_c_string.body"], []),
  ("parser", "src/libpatch/patch/unified/parser.rs", "                        match parse_oct3(&input[index..]) {", "                        match parse_oct3(&input[index + 1..]) {", ["parse_c_string.body"], []),
